@@ -814,7 +814,7 @@ class Gen:
       t = self.sig_type()
       if kind == "Wire" and not isinstance(t, int) and not k.get("struct_wires", True):
         t = twidth(d, t)
-      lst = rng.randrange(2, 4) if (rng.random() < k["p_list"] and isinstance(t, int)) else None
+      lst = rng.randrange(2, 4) if (rng.random() < k["p_list"] and (isinstance(t, int) or (k.get("p_list_struct") and rng.random() < k["p_list_struct"]))) else None
       if lst and k.get("p_list2d") and rng.random() < k["p_list2d"]:
         lst = [rng.randrange(1, 4), rng.randrange(2, 4)] if rng.random() < 0.8 else [2, rng.randrange(1, 3), 2]      # non-square / 3-D
       sg = {"name": f"{prefix}{nid[0]}", "kind": kind, "type": t, "list": lst}; nid[0] += 1
